@@ -29,6 +29,7 @@ except ImportError:  # < 3.11
     import sre_constants as sre_c  # type: ignore
 from typing import Any, Dict, List, Set
 
+from engine.srcmatch import U
 from engine.abseval import OTHER, Joined, Machine, mentioned_chars
 from engine.fold import EnumMember, Folder, Regex
 from engine.model import AnalysisError, Program, dotted
@@ -127,7 +128,7 @@ def run(ctx: Any, prog: Program) -> None:
     for c in ast.walk(et0):
         if isinstance(c, ast.Call) and isinstance(c.func, ast.Attribute) and c.func.attr in ('replace', 'translate') and isinstance(c.func.value, ast.Name) and c.func.value.id in escaped_names \
                 and c.args and isinstance(c.args[0], ast.Constant) and isinstance(c.args[0].value, str) and '\\' in c.args[0].value:
-            ctx.check('C02.T2', False, tk, c, f'`{ast.unparse(c)}` rewrites the already escaped text: the search text {c.args[0].value!r} also occurs where an escaped backslash is followed by '
+            ctx.check('C02.T2', False, tk, c, f'`{U(c)}` rewrites the already escaped text: the search text {c.args[0].value!r} also occurs where an escaped backslash is followed by '
                       f'{c.args[0].value[1:]!r} (`\\\\{c.args[0].value[1:]}`), so a literal backslash + {c.args[0].value[1:]!r} in the input is corrupted', func='escape_text', text='no rewrite of escaped text')
     rx1 = fold.global_('ESCAPE_RE')
     rxm = fold.global_('ESCAPE_MULTILINE_RE')
@@ -149,7 +150,7 @@ def run(ctx: Any, prog: Program) -> None:
     et_params = {a.arg for a in et.args.args}
     written_by_et = {dotted(c.func.value) for c in ast.walk(et) if isinstance(c, ast.Call) and isinstance(c.func, ast.Attribute) and c.func.attr in ('add', 'append', 'update', 'setdefault', 'pop', 'clear', 'discard', 'remove', '__setitem__')} | \
                     {dotted(t.value) for a in ast.walk(et) if isinstance(a, ast.Assign) for t in a.targets if isinstance(t, ast.Subscript)}
-    decorated_cache = [d for d in et.decorator_list if 'cache' in ast.unparse(d)]
+    decorated_cache = [d for d in et.decorator_list if 'cache' in U(d)]
     state = sorted((written_by_et & mutable_globals) - et_params)
     ctx.check('C02.T2', not state, tk, et, f'escape_text keeps state between calls in {state}: what it returns for a string then depends on earlier calls, including calls with the other value of `multiline` '
               '(a string left unchanged in multiline mode is later handed back with its raw line break in single-line mode)', func='escape_text', text='escape_text is a pure function of its arguments')
@@ -191,7 +192,7 @@ def run(ctx: Any, prog: Program) -> None:
                 shape_ok = False
                 detail = 'escape_text ignores its multiline parameter'
             else:
-                raise AnalysisError('escape_text has an unrecognised shape: ' + ast.unparse(rets[0])[:120])
+                raise AnalysisError('escape_text has an unrecognised shape: ' + U(rets[0])[:120])
     else:
         raise AnalysisError('escape_text has an unrecognised shape (expected one return of <regex>.sub(...))')
     ctx.check('C02.T2', shape_ok, tk, rets[0], detail)
